@@ -215,6 +215,46 @@ def splitLits : List Expr → List Expr × List LitVal
 
 def opaqueFuns : List String := ["sqrt", "sin", "cos", "tan", "asin", "acos", "atan", "deg", "rad"]
 
+/-- the operands of `z` when it is an application of `op` -/
+def sameOp (op : String) : Expr → Option (Expr × Expr)
+  | .bin _ o p q => if o == op then some (p, q) else none
+  | _ => none
+
+/-- the re-association step of `_pre_simplify_binop` for an associative (and commutative) operator; `sb` is the recursive
+    call `_simplify_binary_operator` on the regrouped operands -/
+def reassoc (op : String) (sb : Expr → M Expr) (a b : Expr) : M Expr :=
+  match sameOp op a, sameOp op b with
+  | some (a1, a2), some (b1, b2) => do
+      -- first swap: a literal on the right of the left operand goes to the far right
+      let (a1, a2, b1, b2, a, b) ← (if isLit a2 then do
+          let na ← mkBin op a1 b1
+          let a' ← sb na
+          let nb ← mkBin op b2 a2
+          let b' ← sb nb
+          pure (a1, b1, b2, a2, a', b')
+        else pure (a1, a2, b1, b2, a, b))
+      -- second swap: a self reference heading the right operand goes to the far left
+      if isSelfOrField b1 then do
+        let na ← mkBin op b1 a1
+        let a' ← sb na
+        let nb ← mkBin op a2 b2
+        let b' ← sb nb
+        mkBin op a' b'
+      else mkBin op a b
+  | some (a1, a2), none =>
+      if isLit a2 then do
+        let na ← mkBin op a1 b
+        let a' ← sb na
+        mkBin op a' a2
+      else mkBin op a b
+  | none, some (b1, b2) =>
+      if isSelfOrField b1 then do
+        let nb ← mkBin op a b2
+        let b' ← sb nb
+        mkBin op b1 b'
+      else mkBin op a b
+  | none, none => mkBin op a b
+
 mutual
 /-- `_simplify` -/
 def simp : Nat → Expr → M Expr
@@ -333,39 +373,7 @@ def preBinop : Nat → Expr → M Expr
         match findBin op with
         | none => .error .value
         | some d =>
-          if d.assoc then
-            let sameOp (z : Expr) : Option (Expr × Expr) := match z with | .bin _ o p q => if o == op then some (p, q) else none | _ => none
-            match sameOp a, sameOp b with
-            | some (a1, a2), some (b1, b2) => do
-                -- first swap: a literal on the right of the left operand goes to the far right
-                let (a1, a2, b1, b2, a, b) ← (if isLit a2 then do
-                    let na ← mkBin op a1 b1
-                    let a' ← simpBinop f na
-                    let nb ← mkBin op b2 a2
-                    let b' ← simpBinop f nb
-                    pure (a1, b1, b2, a2, a', b')
-                  else pure (a1, a2, b1, b2, a, b))
-                -- second swap: a self reference heading the right operand goes to the far left
-                if isSelfOrField b1 then do
-                  let na ← mkBin op b1 a1
-                  let a' ← simpBinop f na
-                  let nb ← mkBin op a2 b2
-                  let b' ← simpBinop f nb
-                  mkBin op a' b'
-                else mkBin op a b
-            | some (a1, a2), none =>
-                if isLit a2 then do
-                  let na ← mkBin op a1 b
-                  let a' ← simpBinop f na
-                  mkBin op a' a2
-                else mkBin op a b
-            | none, some (b1, b2) =>
-                if isSelfOrField b1 then do
-                  let nb ← mkBin op a b2
-                  let b' ← simpBinop f nb
-                  mkBin op b1 b'
-                else mkBin op a b
-            | none, none => mkBin op a b
+          if d.assoc then reassoc op (simpBinop f) a b
           else mkBin op a b
     | _ => .error (.internal "not a binary operator")
 /-- `_simplify_function_call` and its helpers -/
